@@ -2,22 +2,22 @@
 # usage: confirm_seed.sh <PROP> <N>     (uses /tmp/seed_<PROP> worktree and /tmp/seed_<PROP>_out/{patch_N.diff,demo_N})
 # Confirms: patch applies, workspace tests pass with it, demo fails with it, demo passes without it.
 P=$1; N=$2
-WT=/tmp/seed_$P; OUT=/tmp/seed_${P}_out
-LOG=/tmp/confirm_${P}_${N}.log
+PFX=${SEED_PREFIX:-seed}; WT=/tmp/${PFX}_$P; OUT=/tmp/${PFX}_${P}_out
+LOG=/tmp/confirm_${PFX}_${P}_${N}.log
 exec > $LOG 2>&1
 cd $WT || exit 2
 git checkout -- . ; git status --short
 git apply --check $OUT/patch_$N.diff || { echo "RESULT $P $N patch-does-not-apply"; exit 1; }
 git apply $OUT/patch_$N.diff
 export CARGO_NET_OFFLINE=true
-cargo test --workspace --no-fail-fast --offline > /tmp/confirm_${P}_${N}.tests 2>&1
+cargo test --workspace --no-fail-fast --offline > /tmp/confirm_${PFX}_${P}_${N}.tests 2>&1
 T=$?
-FAILS=$(grep -c "^test .* FAILED" /tmp/confirm_${P}_${N}.tests)
-PASSED=$(grep "^test result" /tmp/confirm_${P}_${N}.tests | awk '{s+=$4} END {print s}')
+FAILS=$(grep -c "^test .* FAILED" /tmp/confirm_${PFX}_${P}_${N}.tests)
+PASSED=$(grep "^test result" /tmp/confirm_${PFX}_${P}_${N}.tests | awk '{s+=$4} END {print s}')
 echo "tests exit=$T failed=$FAILS passed=$PASSED"
-( cd $OUT/demo_$N && bash run.sh ) > /tmp/confirm_${P}_${N}.demo_with 2>&1; DW=$?
+( cd $OUT/demo_$N && bash run.sh ) > /tmp/confirm_${PFX}_${P}_${N}.demo_with 2>&1; DW=$?
 git checkout -- .
-( cd $OUT/demo_$N && bash run.sh ) > /tmp/confirm_${P}_${N}.demo_without 2>&1; DO=$?
+( cd $OUT/demo_$N && bash run.sh ) > /tmp/confirm_${PFX}_${P}_${N}.demo_without 2>&1; DO=$?
 rm -rf $OUT/demo_$N/target
 echo "demo with patch exit=$DW ; without patch exit=$DO"
 if [ $T -eq 0 ] && [ $DW -ne 0 ] && [ $DO -eq 0 ]; then echo "RESULT $P $N confirmed passed=$PASSED"; else echo "RESULT $P $N NOT-confirmed"; fi
